@@ -79,8 +79,15 @@ var (
 	// the same slow-path literals several times in one document / call sequence
 	inSlowRep1 = []byte(`[9007199254740993.00000000000000000000001,9007199254740993.00000000000000000000001,2.5e-320,9007199254740993.00000000000000000000001]`)
 	inSlowRep2 = []byte(`{"a":4503599627370497.5000000000000000000000000000,"b":7e-320,"c":4503599627370497.5000000000000000000000000000}`)
-	inKeysA    = manyEscapedKeys("a", 1100)
-	inKeysB    = manyEscapedKeys("b", 1100)
+	// one arena: [0:16) a string token, [16:40) scratch, [40:48) a number, [48:80) scratch
+	inArena = func() []byte {
+		a := make([]byte, 80)
+		copy(a, `"abcdefghijklmn"`)
+		copy(a[40:], `1234567 `)
+		return a
+	}()
+	inKeysA = manyEscapedKeys("a", 1100)
+	inKeysB = manyEscapedKeys("b", 1100)
 )
 
 func manyEscapedKeys(tag string, n int) []byte {
@@ -386,6 +393,23 @@ func concTemplates() []concTemplate {
 				out += f("%d %v %d %v %v %d %v %d %v|", p1, e1, p2, e2, v, p3, e3, p4, e4)
 			}
 			return out
+		}},
+		// an input that is a window with spare capacity, while the region right behind the window
+		// is another goroutine's destination (a read beyond len(input) races with that writer)
+		{"reads on windows with spare capacity", func() string {
+			s1, p1, e1 := rjson.ReadStringBytes(inArena[0:16], nil)
+			s2, p2, e2 := rjson.ReadString(inArena[0:16], nil)
+			v, p3, e3 := rjson.ReadValue(inArena[0:16])
+			f1, p4, e4 := rjson.ReadFloat64(inArena[40:48])
+			u1, p5, e5 := rjson.ReadUint64(inArena[40:47])
+			p6, e6 := rjson.SkipValue(inArena[0:16], nil)
+			ok := rjson.Valid(inArena[40:48], nil)
+			return f("%q %d %v %q %d %v %v %d %v %v %d %v %d %d %v %d %v %v", s1, p1, e1, s2, p2, e2, v, p3, e3, f1, p4, e4 != nil, u1, p5, e5, p6, e6, ok)
+		}},
+		{"writer into the region behind those windows", func() string {
+			d1 := rjson.StdLibCompatibleStringBytes(inUTF8, inArena[16:16:40])
+			d2, p, err := rjson.UnescapeStringContent(inStrPair1[1:len(inStrPair1)-1], inArena[48:48:80])
+			return f("%q %q %d %v", d1, d2, p, err)
 		}},
 		// declined containers nested deeper than small fixed thresholds, without a Buffer
 		{"HandleArrayValues(depth 70,decline,nil)", func() string {
